@@ -20,6 +20,14 @@ RULE = ("method in {linear, cspline} x bc in {not-a-knot(>=4 knots), natural, cl
         "callable, bound, mirror, periodic} x grid (3..40 knots, spacing ratio <=100, optionally shuffled) x queries (at knots, at the "
         "range ends, inside, outside; 1..3n of them, shuffled) x y batch shape x y at init/call x reuse of one object for several calls; "
         "the caller's x, y, xq must be bitwise unchanged by a call. "
+        "Units: the whole grid and the queries are multiplied by xunit in {1, 1e-9, 1e-6, 1e-3, 1e3, 1e6} and the samples by yunit in {1, 1e-6, 1e4} "
+        "(reference on the rescaled data, every tolerance relative to yunit / the range length / the smallest spacing); relation 'units': the same data "
+        "with x*2^k, y*2^m (exact) must give the same inside/outside classification, NaN pattern and values*2^m. Queries 1..4 ulps outside the range "
+        "(the inside/outside decision is exact). Documented defaults spelled explicitly / as None / omitted (method None == cspline, bc_type None == "
+        "not-a-knot, extrap None == default of the bc) and compared with the reference for the REQUESTED options. Gradients (rel grad, and in histories): "
+        "d/dy and d/dxq at ALL queries including those outside the range, for every extrapolation mode: mapped modes = derivative at the image position "
+        "times the orientation of the image (periodic +1, mirror flips with each reflection, bound 0), constant 0, callable 2 (z -> 2z+1), NaN outputs "
+        "left out of the loss (gradient 0). "
         "history: ONE Interp1D object (x sorted / sorted with assume_sorted=True / shuffled; y at init or at call) and 2..4 (thorough 7) calls, each "
         "with y in {new tensor (any batch shape, contiguous or a strided view of a larger tensor), the same tensor again, the same tensor updated "
         "in place by copy_/add_/mul_/element assignment} x requires_grad on/off x torch.no_grad() on/off, and queries in {new, same tensor, same "
@@ -29,6 +37,13 @@ RULE = ("method in {linear, cspline} x bc in {not-a-knot(>=4 knots), natural, cl
         "Non-trivial = at least one query strictly between knots (history: and at least two calls on the object); distinct by canonical case.")
 ASSUMPTIONS = [
     "float64; x does not require grad (the statement claims differentiability in y and xq only)",
+    "units: tolerances are 1e-10*ratio^2*(max|y|+yunit) for values and 1e-8*ratio^3*(max|y|+yunit)*|W|/hmin for d/dxq (hmin = smallest spacing in the "
+    "units of the case), times 1+3|xq|max/L for outside queries (rounding of the image position); nothing absolute",
+    "KNOWN WEAKNESS allowed for (reported, not repaired): clamped / not-a-knot splines on grids with unit != 1 get the allowance "
+    "max(1, 1e-4*row-scale disparity of xitorch's slope system) because its boundary rows are not scaled like the interior rows "
+    "(error eps*ratio^2*disparity measured on the unchanged tree); natural / periodic / linear have no allowance",
+    "outside-query derivatives are not compared where the extension has only one-sided derivatives (images within 1e-9 range lengths of a "
+    "range end; knots for the linear method)",
     "not-a-knot needs >= 4 knots (with 3 the two end conditions coincide and the spline is not unique)",
     "tolerance 1e-10 * ratio^2 * max|y| (spline system conditioning grows with the spacing ratio)",
     "batched y with an unbatched 1-D x (the docs restrict batched x/xq to the no-extrapolation case)",
@@ -46,10 +61,74 @@ TECHNIQUE = ("Hypothesis property-based testing: differential oracle (SciPy/NumP
 DT = torch.float64
 
 
+EPS = 2.220446049250313e-16
+MAPPED = ("mirror", "periodic", "bound")
+
+
 def make_grid(case):
+    """knots = (partial sums of incs * xscale + x0) * unit: `unit` re-expresses the same grid in other units of x"""
     incs = np.array(case["incs"], dtype=np.float64)
-    x = np.concatenate([[0.0], np.cumsum(incs)]) * case["xscale"] + case["x0"]
+    x = (np.concatenate([[0.0], np.cumsum(incs)]) * case["xscale"] + case["x0"]) * case.get("unit", 1.0)
     return x
+
+
+def hmin_of(case):
+    return min(case["incs"]) * case["xscale"] * case.get("unit", 1.0)
+
+
+ROWS_EQUILIBRATED = False     # D56 is repaired in /repo, but the SciPy reference solves a system with the same row-scale disparity (measured: 1e-13 relative at unit 1e6 where repaired xitorch has 2e-16 against exact rational arithmetic), so the allowance stays as the accuracy of the REFERENCE
+
+
+def rowscale(case, method, bc, xs, unit=None):
+    """allowance >= 1 multiplying the tolerances of clamped / not-a-knot splines on grids in units other than 1.
+    KNOWN WEAKNESS of the unchanged tree (reported): in the slope system the clamped rows are unit rows and the not-a-knot rows ~1/dx^2
+    while all other rows are ~1/dx; Gaussian elimination with partial pivoting is only normwise stable, so the error grows with the
+    disparity of the row scales, eps*ratio^2*disparity (measured; it disappears when the boundary rows are rescaled).  1e-4*disparity
+    relative to the 1e-10 base tolerance = 50*eps*disparity.  Natural/periodic/linear: 1 (homogeneous in the unit of x)."""
+    unit = case.get("unit", 1.0) if unit is None else unit
+    if method != "cspline" or bc not in ("clamped", "not-a-knot") or unit == 1.0 or ROWS_EQUILIBRATED:
+        return 1.0
+    d = np.diff(xs)
+    dmin, dmax = float(d.min()), float(d.max())
+    if bc == "clamped":
+        disp = max(1.0 / dmin, 1.0) * max(dmax, 1.0)
+    else:
+        db = [float(v) for v in (d[0], d[1], d[-2], d[-1])]
+        disp = max([1.0] + [b * b / dmin for b in db] + [dmax / (b * b) for b in db])
+    return max(1.0, 1e-4 * disp)
+
+
+def spell_kwargs(case, method, bc, extrap, extrap_value):
+    """constructor keywords for the REQUESTED options; documented defaults are spelled explicitly, as None, or left out:
+    method None/omitted == "cspline", bc_type None/omitted == "not-a-knot", extrap None/omitted == the default of the bc"""
+    kw = {}
+    msp = case.get("mspell", "explicit") if method == "cspline" else "explicit"
+    if msp == "explicit":
+        kw["method"] = method
+    elif msp == "none":
+        kw["method"] = None
+    if method == "cspline":
+        bsp = case.get("bcspell", "explicit") if bc == "not-a-knot" else "explicit"
+        if bsp == "explicit":
+            kw["bc_type"] = bc
+        elif bsp == "none":
+            kw["bc_type"] = None
+    if extrap != "default":
+        kw["extrap"] = extrap_value
+    elif case.get("exspell", "omitted") == "none":
+        kw["extrap"] = None
+    return kw
+
+
+def spell_label(case, method, bc, extrap):
+    parts = []
+    if method == "cspline" and case.get("mspell", "explicit") != "explicit":
+        parts.append("method-" + case["mspell"])
+    if method == "cspline" and bc == "not-a-knot" and case.get("bcspell", "explicit") != "explicit":
+        parts.append("bc-" + case["bcspell"])
+    if extrap == "default":
+        parts.append("extrap-" + case.get("exspell", "omitted"))
+    return "spelling=" + ("+".join(parts) if parts else "explicit")
 
 
 def ref_interp(method, bc, xs, ys, xq, nu=0):
@@ -80,6 +159,70 @@ def map_outside(xq, xmin, xmax, mode):
     return xmin + p * L
 
 
+def orientation(xq, xmin, xmax, mode):
+    """d(image position)/d(xq) of the documented mapping, and a mask of the queries sitting (within 1e-9 range lengths) on a point
+    where the mapping has a kink/jump (range ends and their images), where the extended interpolant has only one-sided derivatives"""
+    L = xmax - xmin
+    p = (xq - xmin) / L
+    outside = (xq < xmin) | (xq > xmax)
+    if mode == "periodic":
+        o = np.ones_like(p)
+    elif mode == "mirror":
+        k = np.floor(np.abs(p))
+        o = np.where(p < 0, -1.0, 1.0) * np.where(k % 2 == 1, -1.0, 1.0)
+    elif mode == "bound":
+        o = np.zeros_like(p)
+    else:
+        raise ValueError(mode)
+    kink = outside & (np.abs(p - np.round(p)) < 1e-9)
+    return np.where(outside, o, 1.0), kink
+
+
+def ref_dxq(method, sbc, eff_extrap, xs, ys, xq, pos, inside):
+    """element-wise derivative d out[..., q] / d xq[q] of the documented extended interpolant, and the mask of the queries where
+    that derivative is two-sided.  Inside: the interpolant's own derivative.  Outside: mapped modes -> derivative at the image
+    position times the orientation of the image (periodic +1, mirror flips with each reflection, bound 0); constant -> 0;
+    callable z -> 2z+1 -> 2; nan -> not part of the loss, hence 0."""
+    d = ref_interp(method, sbc, xs, ys, pos, nu=1)
+    valid = np.ones(len(xq), dtype=bool)
+    if method == "linear":
+        valid &= ~np.isin(pos, xs)                       # kinks of the piecewise linear interpolant
+    if not inside.all():
+        if eff_extrap in MAPPED:
+            o, kink = orientation(xq, xs[0], xs[-1], eff_extrap)
+            d = d * o
+            if eff_extrap == "bound":
+                valid |= ~inside                          # constant continuation: derivative 0 whatever the interpolant does
+            else:
+                valid &= ~kink
+        else:
+            d = d.copy()
+            d[..., ~inside] = {"nan": 0.0, "const": 0.0, "callable": 2.0}[eff_extrap]
+            valid |= ~inside
+    return d, valid
+
+
+def ref_dy(method, sbc, eff_extrap, xs, pos, inside, tied):
+    """(m, nq) matrix: response of the documented value at each query to the directions E_j of y (sorted order), and a function
+    folding a gradient w.r.t. y (sorted order) onto these directions.  With y[0]==y[-1] required only directions that keep it are
+    defined: interior unit vectors and e_0+e_{n-1}.  Outside queries of the value-type modes (nan/constant/callable) do not depend on y."""
+    n = len(xs)
+    E = np.eye(n)
+    if tied:
+        E[0, -1] = 1.0
+        E = E[:-1]
+    Lmat = ref_interp(method, sbc, xs, E, pos)
+    if eff_extrap not in MAPPED:
+        Lmat = Lmat.copy()
+        Lmat[:, ~inside] = 0.0
+
+    def fold(gy_sorted):
+        if tied:
+            return np.concatenate([gy_sorted[..., :1] + gy_sorted[..., -1:], gy_sorted[..., 1:-1]], axis=-1)
+        return gy_sorted
+    return Lmat, fold
+
+
 def same_bits(t, before):
     """bitwise equality of two float64 tensors of the same shape (no NaN / signed-zero leniency)"""
     return tuple(t.shape) == tuple(before.shape) and \
@@ -95,7 +238,8 @@ def run_case(case):
     n = len(xs)
     ratio = max(case["incs"]) / min(case["incs"])
     batch = tuple(case["batch"])
-    ys = torch.randn((*batch, n), generator=g, dtype=DT).numpy().copy()
+    yunit = float(case.get("yunit", 1.0))
+    ys = torch.randn((*batch, n), generator=g, dtype=DT).numpy().copy() * yunit
     eff_extrap = extrap
     if extrap == "default":
         eff_extrap = {"clamped": "mirror", "periodic": "periodic"}.get(bc, "nan") if method == "cspline" else "nan"
@@ -111,30 +255,16 @@ def run_case(case):
     nq = case["nq"]
     u = torch.rand((nq,), generator=g, dtype=DT).numpy()
     kinds = case["qkinds"]
-    xq = np.empty(nq)
-    for i in range(nq):
-        k = kinds[i % len(kinds)]
-        if k == "knot":
-            xq[i] = xs[int(u[i] * n) % n]
-        elif k == "lo":
-            xq[i] = xmin
-        elif k == "hi":
-            xq[i] = xmax
-        elif k == "in":
-            xq[i] = xmin + u[i] * L
-        elif k == "out_lo":
-            xq[i] = xmin - (0.05 + 2.4 * u[i]) * L
-        elif k == "out_hi":
-            xq[i] = xmax + (0.05 + 2.4 * u[i]) * L
+    xq = draw_queries(kinds, nq, u, xs)
     inside = (xq >= xmin) & (xq <= xmax)
     has_out = not inside.all()
     labels = ["method=" + method, "bc=" + (bc if method == "cspline" else "-"), "extrap=" + str(eff_extrap if has_out else "none-needed"),
               "n=%s" % ("3" if n == 3 else "4-8" if n <= 8 else "9+"), "formula=" + ("many" if nq > n else "few"),
-              "yat=" + case["yat"], "shuffled" if case["shuffle"] else "sorted", "batch=%d" % len(batch)]
+              "yat=" + case["yat"], "shuffled" if case["shuffle"] else "sorted", "batch=%d" % len(batch),
+              "xunit=%g" % case.get("unit", 1.0), "yunit=%g" % yunit, spell_label(case, method, bc, extrap)]
+    if any(k.startswith("ulp") for k in kinds[:nq]):
+        labels.append("query=ulps-outside")
 
-    kw = {"method": method}
-    if method == "cspline":
-        kw["bc_type"] = bc
     const = float(case.get("const", 1.75))
     cform = case.get("constform", "float")
     const_arg = {"float": float(const), "int": int(const), "tensor": torch.tensor(const, dtype=DT), "tensor1": torch.tensor([const], dtype=DT)}[cform]
@@ -146,15 +276,14 @@ def run_case(case):
         # documented: "apply this extrapolation function with the extrapolated positions"
         seen_by_callable.append(z.detach().clone())
         return 2.0 * z + 1.0
-    if extrap != "default":
-        kw["extrap"] = {"nan": "nan", "const": const_arg, "callable": extrap_fcn, "bound": "bound",
-                        "mirror": "mirror", "periodic": "periodic", "none": None}[extrap]
+    kw = spell_kwargs(case, method, bc, extrap, {"nan": "nan", "const": const_arg, "callable": extrap_fcn, "bound": "bound",
+                                                 "mirror": "mirror", "periodic": "periodic"}.get(extrap))
     xq_t = torch.tensor(xq, dtype=DT)
 
-    def evaluate(yat, xq_tensor, y_tensor=y_t):
+    def evaluate(yat, xq_tensor, y_tensor=y_t, x_tensor=x_t):
         if yat == "init":
-            return Interp1D(x_t, y_tensor, **kw)(xq_tensor)
-        return Interp1D(x_t, **kw)(xq_tensor, y_tensor)
+            return Interp1D(x_tensor, y_tensor, **kw)(xq_tensor)
+        return Interp1D(x_tensor, **kw)(xq_tensor, y_tensor)
 
     snap = [(nm, t, t.clone()) for nm, t in (("x", x_t), ("y", y_t), ("xq", xq_t))]
     got = xt_call(evaluate, case["yat"], xq_t, _where="interp")
@@ -189,23 +318,31 @@ def run_case(case):
                 ref[..., ~inside] = const
             elif eff_extrap == "callable":
                 ref[..., ~inside] = 2.0 * xq[~inside] + 1.0
-    ymax = float(np.abs(ys).max()) + 1.0
+    # every tolerance is relative to the magnitudes of the case: yunit for values, the range length L / smallest spacing for positions
+    ymax = float(np.abs(ys).max()) + yunit
+    rs = rowscale(case, method, bc, xs)
+    if rs > 1e4:
+        labels.append("rowscale-allowance>1e4")
     # slope bound for positions perturbed by the extrapolation mapping
-    tol = 1e-10 * ratio ** 2 * ymax * (1 + (3 * np.abs(xq).max() / L if has_out else 0))
+    tol = 1e-10 * ratio ** 2 * ymax * (1 + (3 * np.abs(xq).max() / L if has_out else 0)) * rs
+    if has_out and eff_extrap == "callable":
+        tol = tol + 4 * EPS * np.where(inside, 0.0, np.abs(2.0 * xq + 1.0))        # the callable's own arithmetic (values are not in y units)
     gotn = got.detach().numpy()
     nanmask = np.isnan(ref)
     if (np.isnan(gotn) != nanmask).any():
         return violation("nan_pattern", "NaN pattern differs: got NaN at %s, expected at %s" % (
             np.argwhere(np.isnan(gotn))[:4].tolist(), np.argwhere(nanmask)[:4].tolist()), labels)
     err = np.abs(np.where(nanmask, 0.0, gotn - ref))
-    if err.max() > tol:
-        i = np.unravel_index(np.argmax(err), err.shape)
-        return violation("value", "xq=%r (inside=%s): got %r, reference %r (err %.2e, tol %.2e); n=%d bc=%s extrap=%s" % (
-            xq[i[-1]], bool(inside[i[-1]]), gotn[i], ref[i], err.max(), tol, n, bc, eff_extrap), labels)
+    if (err > tol).any():
+        i = np.unravel_index(np.argmax(err - tol), err.shape)
+        return violation("value", "xq=%r (inside=%s, range [%r, %r]): got %r, reference %r (err %.2e, tol %.2e); n=%d bc=%s extrap=%s kw=%s" % (
+            xq[i[-1]], bool(inside[i[-1]]), xmin, xmax, gotn[i], ref[i], err[i], float(np.max(tol)), n, bc, eff_extrap,
+            sorted((k, str(v)) for k, v in kw.items() if k != "extrap")), labels)
+    tol = float(np.max(tol))
 
     # samples reproduced at the knots (tight)
     atk = xt_call(evaluate, case["yat"], torch.tensor(xs, dtype=DT), _where="interp@knots").detach().numpy()
-    if np.abs(atk - ys).max() > 1e-11 * ratio * ymax:
+    if np.abs(atk - ys).max() > 1e-11 * ratio * ymax * rs:
         return violation("knots", "values at the sample positions differ from the samples by %.2e" % np.abs(atk - ys).max(), labels)
 
     rel = case["rel"]
@@ -231,13 +368,13 @@ def run_case(case):
             alone = xt_call(evaluate, case["yat"], xq_t[j:j + 1], _where="interp").detach().numpy()[..., 0]
             pad = torch.tensor(np.concatenate([[xq[j]], xmin + L * torch.rand((3 * n + 1,), generator=g, dtype=DT).numpy()]), dtype=DT)
             many = xt_call(evaluate, case["yat"], pad, _where="interp").detach().numpy()[..., 0]
-            if np.abs(alone - many).max() > 1e-12 * ratio ** 2 * ymax:
+            if np.abs(alone - many).max() > 1e-12 * ratio ** 2 * ymax * rs:
                 return violation("few_vs_many", "the two evaluation formulas disagree at xq=%r: %r vs %r" % (xq[j], alone, many), labels)
     elif rel == "reuse":
         # one object, several calls with different y batch shapes
         obj = Interp1D(x_t, **kw)
         for b2 in case["reuse_batches"]:
-            y2 = torch.randn((*b2, n), generator=g, dtype=DT).numpy()
+            y2 = torch.randn((*b2, n), generator=g, dtype=DT).numpy() * yunit
             if bc == "periodic" or eff_extrap == "periodic":
                 y2[..., -1] = y2[..., 0]
             r2 = xt_call(obj, xq_t[inside], torch.tensor(y2[..., perm], dtype=DT), _where="interp-reuse")
@@ -248,41 +385,78 @@ def run_case(case):
                 return violation("reuse_shape", "re-used object: result shape %s, expected %s" % (tuple(r2.shape), want.shape), labels)
             if np.abs(r2.detach().numpy() - want).max() > tol:
                 return violation("reuse_value", "re-used object gives wrong values for a later y (err %.2e)" % np.abs(r2.detach().numpy() - want).max(), labels)
+    elif rel == "units":
+        # the interpolant is homogeneous in the unit of x and linear in y: the same samples and queries expressed in other units
+        # (x -> 2^k x, y -> 2^m y; powers of two, so the rescaling itself is exact) give the same inside/outside classification,
+        # the same NaN pattern and the same values times 2^m
+        sx, sy = 2.0 ** case["pow2x"], 2.0 ** case["pow2y"]
+        if extrap == "callable":
+            # a callable acts on positions in the caller's units; express it in the new units as well
+            kw["extrap"] = lambda z: sy * extrap_fcn(z / sx)
+        elif extrap == "const":
+            kw["extrap"] = const_arg * sy
+        other = xt_call(evaluate, case["yat"], xq_t * sx, y_t * sy, x_t * sx, _where="interp-rescaled").detach().numpy() / sy
+        if (np.isnan(other) != nanmask).any():
+            j = int(np.argwhere(np.isnan(other) != nanmask)[0][-1])
+            return violation("units_nan_pattern", "the same samples/queries with x multiplied by 2^%d: query %r (inside=%s, range [%r, %r]) "
+                             "changes between NaN and a number" % (case["pow2x"], xq[j], bool(inside[j]), xmin, xmax), labels)
+        d = np.abs(np.where(nanmask, 0.0, other - gotn))
+        tol_u = tol * (1 + rowscale(case, method, bc, xs * sx, unit=case.get("unit", 1.0) * sx) / rs)
+        if (d > tol_u).any():
+            i = np.unravel_index(np.argmax(d), d.shape)
+            return violation("units_value", "x -> 2^%d x, y -> 2^%d y: value at query %r (inside=%s) is %r in the original units, %r after "
+                             "rescaling back (diff %.2e, tol %.2e); extrap=%s" % (case["pow2x"], case["pow2y"], xq[i[-1]], bool(inside[i[-1]]),
+                                                                                 gotn[i], other[i], d[i], tol_u, eff_extrap), labels)
     elif rel == "grad":
-        if not inside.any():
+        # d/dy and d/dxq at ALL queries, inside and outside the range, for every extrapolation mode (NaN outputs are left out of the loss)
+        sel = ~nanmask.reshape(-1, nq).any(0)
+        if not sel.any():
             return ok(labels, False)
-        xin = torch.tensor(xq[inside], dtype=DT, requires_grad=True)
+        tied = bc == "periodic" or eff_extrap == "periodic"
+        xin = torch.tensor(xq, dtype=DT, requires_grad=True)
         yg = y_t.clone().requires_grad_()
         out = xt_call(evaluate, case["yat"], xin, yg, _where="interp")
-        W = torch.randn(out.shape, generator=g, dtype=DT)
-        gy, gx = xt_call(torch.autograd.grad, (out * W).sum(), (yg, xin), allow_unused=True, _where="backward")
-        # reference d/dy: interpolation matrix from unit vectors (sorted order), then permuted
-        eye = np.eye(n)
-        if bc == "periodic" or eff_extrap == "periodic":
-            Lmat = None
-        else:
-            Lmat = ref_interp(method, sbc, xs, eye, xq[inside])      # (n, nq_in): row j = response to e_j
-        Wn = W.numpy()
-        if Lmat is not None:
-            gy_ref_sorted = np.einsum("...q,jq->...j", Wn, Lmat)
-            gy_ref = np.empty_like(gy_ref_sorted)
-            gy_ref[..., :] = gy_ref_sorted[..., perm]
-            gyn = np.zeros_like(gy_ref) if gy is None else gy.numpy()
-            if np.abs(gyn - gy_ref).max() > 1e-9 * ratio ** 2 * (1 + np.abs(gy_ref).max()):
-                return violation("grad_y", "d/dy differs from the interpolation matrix of the reference (err %.2e)" % np.abs(gyn - gy_ref).max(), labels)
-        # d/dxq: derivative of the interpolant (skip queries sitting exactly on knots for linear: one-sided)
-        d_ref = (ref_interp(method, sbc, xs, ys, xq[inside], nu=1) * Wn).reshape(-1, int(inside.sum())).sum(0)
-        onknot = np.isin(xq[inside], xs)
-        gxn = np.zeros_like(d_ref) if gx is None else gx.numpy()
-        mask = ~onknot if method == "linear" else np.ones_like(onknot)
-        if mask.any() and np.abs((gxn - d_ref)[mask]).max() > 1e-8 * ratio ** 3 * (1 + np.abs(d_ref).max()) / min(case["incs"]) / case["xscale"]:
-            return violation("grad_xq", "d/dxq differs from the interpolant's derivative (err %.2e)" % np.abs((gxn - d_ref)[mask]).max(), labels)
+        if not out.requires_grad:
+            return violation("no_graph", "the result does not require grad although y and xq do", labels)
+        W = torch.randn((*batch, int(sel.sum())), generator=g, dtype=DT)
+        gy, gx = xt_call(torch.autograd.grad, (out[..., torch.tensor(sel)] * W).sum(), (yg, xin), allow_unused=True, _where="backward")
+        Wn = np.zeros((*batch, nq))
+        Wn[..., sel] = W.numpy()
+        pos = xq_eff if (has_out and eff_extrap in MAPPED) else xq
+        # reference d/dy: interpolation matrix from unit vectors (sorted order) at the image positions
+        Lmat, fold = ref_dy(method, sbc, eff_extrap, xs, pos, inside, tied)
+        gy_ref = np.einsum("...q,jq->...j", Wn, Lmat)
+        gyn = fold(np.zeros((*batch, n)) if gy is None else gy.numpy()[..., np.argsort(perm)])
+        if np.abs(gyn - gy_ref).max() > 1e-9 * ratio ** 2 * rs * (np.abs(Wn).max() + np.abs(gy_ref).max()) * (1 + (3 * np.abs(xq).max() / L if has_out else 0)):
+            return violation("grad_y", "d/dy differs from the interpolation matrix of the reference (err %.2e); extrap=%s" % (
+                np.abs(gyn - gy_ref).max(), eff_extrap if has_out else "none-needed"), labels)
+        # d/dxq: derivative of the (extended) interpolant; one-sided points are skipped
+        d_el, valid = ref_dxq(method, sbc, eff_extrap, xs, ys, xq, pos, inside)
+        d_ref = (d_el * Wn).reshape(-1, nq).sum(0)
+        gxn = np.zeros(nq) if gx is None else gx.numpy()
+        # slope scale ymax*|W|/hmin; the image position of an outside query carries a rounding eps*|xq|, i.e. eps*|xq|/hmin relative
+        # to the smallest interval, which enters the derivative through the curvature
+        dtol = 1e-8 * ratio ** 3 * rs * (ymax * np.abs(Wn).sum(axis=tuple(range(len(batch)))).max() / hmin_of(case) + np.abs(d_ref).max()) * \
+            (1 + (3 * np.abs(xq).max() / L if has_out else 0))
+        bad = valid & (np.abs(gxn - d_ref) > dtol)
+        if bad.any():
+            j = int(np.argmax(np.where(valid, np.abs(gxn - d_ref), 0.0)))
+            return violation("grad_xq" if inside[j] else "grad_xq_outside",
+                             "d/dxq at xq=%r (inside=%s, range [%r, %r], image position %r) is %r, derivative of the %s is %r (tol %.2e); extrap=%s" % (
+                                 xq[j], bool(inside[j]), xmin, xmax, pos[j], gxn[j], "interpolant" if inside[j] else "documented extension",
+                                 d_ref[j], dtol, eff_extrap), labels)
+        labels = labels + ["grad-at=" + ("inside+outside" if has_out else "inside")]
     between = bool(((xq_eff if has_out and eff_extrap in ("mirror", "periodic", "bound") else xq)[inside | (has_out and eff_extrap in ("mirror", "periodic"))] if True else xq).size) and \
         bool((~np.isin(xq[inside], xs)).any())
     return ok(labels + ["rel=" + rel], between)
 
 
 # ------------------------------------------------------------------ strategy
+
+UNITS = [1.0, 1.0, 1.0, 1e-9, 1e-6, 1e-3, 1e3, 1e6]
+YUNITS = [1.0, 1.0, 1e-6, 1e4]
+SPELL = ["explicit", "explicit", "none", "omitted"]
+
 
 @st.composite
 def case_st(draw, tier="quick"):
@@ -292,19 +466,23 @@ def case_st(draw, tier="quick"):
     n = draw(st.one_of(st.integers(nmin, 8), st.integers(nmin, 14 if tier == "quick" else 40)))
     incs = [draw(st.sampled_from([1.0, 1.0, 1.0, 0.5, 2.0, 0.1, 3.0, 10.0])) for _ in range(n - 1)]
     extrap = draw(st.sampled_from(["default", "default", "nan", "const", "callable", "bound", "mirror", "periodic"]))
-    out_ok = True
-    qk = ["in", "in", "knot", "lo", "hi"]
-    qkinds = draw(st.lists(st.sampled_from(qk + (["out_lo", "out_hi"] if out_ok else [])), min_size=1, max_size=6))
+    qk = ["in", "in", "in", "knot", "lo", "hi", "out_lo", "out_lo", "out_hi", "out_hi", "ulp_lo", "ulp_hi"]
+    qkinds = draw(st.lists(st.sampled_from(qk), min_size=1, max_size=6))
     nq = draw(st.one_of(st.integers(1, n), st.integers(n + 1, 3 * n)))
-    rel = draw(st.sampled_from(["init_vs_call", "sorted_vs_shuffled", "query_perm", "few_vs_many", "reuse", "grad", "grad"]))
-    if rel == "grad":
-        qkinds = [k for k in qkinds if not k.startswith("out")] or ["in"]
+    rel = draw(st.sampled_from(["init_vs_call", "sorted_vs_shuffled", "query_perm", "few_vs_many", "reuse", "units", "grad", "grad", "grad"]))
+    if rel == "units":
+        qkinds = [k for k in qkinds if not k.startswith("ulp")] or ["out_hi"]      # (an ulp below 0 is subnormal: not exactly rescalable)
     constv = draw(st.sampled_from([1.75, 0.0, 0.0, -2.0, 3.0]))
     return {"const": constv, "constform": draw(st.sampled_from(["float", "float", "int", "tensor", "tensor1"])),
             "method": method, "bc": bc, "extrap": extrap, "incs": incs, "xscale": draw(st.sampled_from([1.0, 0.01, 30.0])),
             "x0": draw(st.sampled_from([0.0, -5.0, 2.5])), "shuffle": draw(st.booleans()), "nq": nq, "qkinds": qkinds,
             "batch": draw(st.sampled_from([[], [], [2], [1], [2, 3], [3, 1]])), "yat": draw(st.sampled_from(["init", "call"])),
             "rel": rel, "reuse_batches": draw(st.lists(st.sampled_from([[], [2], [1], [3], [2, 3]]), min_size=2, max_size=4)),
+            # units of x and y (the knots, the queries and the samples are the same numbers times the unit)
+            "unit": draw(st.sampled_from(UNITS)), "yunit": draw(st.sampled_from(YUNITS)),
+            "pow2x": draw(st.sampled_from([-30, -27, -10, 10, 20])), "pow2y": draw(st.sampled_from([0, -20, 14])),
+            # documented defaults spelled explicitly / as None / left out
+            "mspell": draw(st.sampled_from(SPELL)), "bcspell": draw(st.sampled_from(SPELL)), "exspell": draw(st.sampled_from(["omitted", "none"])),
             "seed": draw(st.integers(0, 2 ** 31 - 1))}
 
 
@@ -328,6 +506,12 @@ def draw_queries(kinds, nq, u, xs):
             xq[i] = xmin - (0.05 + 2.4 * u[i]) * L
         elif k == "out_hi":
             xq[i] = xmax + (0.05 + 2.4 * u[i]) * L
+        elif k in ("ulp_lo", "ulp_hi"):
+            # the nearest representable positions outside the range (1..4 ulps): the inside/outside decision is exact
+            v, to = (xmin, -np.inf) if k == "ulp_lo" else (xmax, np.inf)
+            for _ in range(1 + int(u[i] * 4) % 4):
+                v = np.nextafter(v, to)
+            xq[i] = v
     return xq
 
 
@@ -377,18 +561,15 @@ def run_history(case):
     inv = np.argsort(perm)              # y_t[..., inv[i]] holds the sample of the i-th smallest position
     x_t = torch.tensor(xs[perm], dtype=DT)
     const = float(case["const"])
-    kw = {"method": method}
-    if method == "cspline":
-        kw["bc_type"] = bc
-    if extrap != "default":
-        kw["extrap"] = {"nan": "nan", "const": const, "callable": (lambda z: 2.0 * z + 1.0), "bound": "bound",
-                        "mirror": "mirror", "periodic": "periodic"}[extrap]
+    yunit = float(case.get("yunit", 1.0))
+    kw = spell_kwargs(case, method, bc, extrap, {"nan": "nan", "const": const, "callable": (lambda z: 2.0 * z + 1.0), "bound": "bound",
+                                                 "mirror": "mirror", "periodic": "periodic"}.get(extrap))
     kw_obj = dict(kw)
     if case["assume_sorted"]:
         kw_obj["assume_sorted"] = True
 
     def sorted_values(batch):
-        v = torch.randn((*batch, n), generator=g, dtype=DT).numpy().copy()
+        v = torch.randn((*batch, n), generator=g, dtype=DT).numpy().copy() * yunit
         if tied:
             v[..., -1] = v[..., 0]
         return v
@@ -411,7 +592,8 @@ def run_history(case):
 
     labels = ["method=" + method, "bc=" + (bc if method == "cspline" else "-"),
               "x=" + ("shuffled" if case["shuffle"] else "sorted+assume_sorted" if case["assume_sorted"] else "sorted"),
-              "yat=" + ("init" if case["yinit"] else "call"), "hist-extrap=" + str(eff_extrap)]
+              "yat=" + ("init" if case["yinit"] else "call"), "hist-extrap=" + str(eff_extrap),
+              "xunit=%g" % case.get("unit", 1.0), "yunit=%g" % yunit, spell_label(case, method, bc, extrap)]
     y = ybase = xq_t = None
     ncalls = 0
     between = False
@@ -472,8 +654,12 @@ def run_history(case):
 
         ref, inside, pos, act = reference(method, sbc, eff_extrap, xs, ys_now, xq, const)
         has_out = not inside.all()
-        ymax = float(np.abs(ys_now).max()) + 1.0
-        tol = 1e-10 * ratio ** 2 * ymax * (1 + (3 * np.abs(xq).max() / L if has_out else 0))
+        ymax = float(np.abs(ys_now).max()) + yunit
+        far = 1 + (3 * np.abs(xq).max() / L if has_out else 0)
+        rs = rowscale(case, method, bc, xs)
+        tol = 1e-10 * ratio ** 2 * ymax * far * rs
+        if has_out and eff_extrap == "callable":
+            tol = tol + 4 * EPS * np.where(inside, 0.0, np.abs(2.0 * xq + 1.0))
 
         snap = [("xq", xq_t, xq_t.detach().clone())]
         if ycall is not None:
@@ -495,10 +681,10 @@ def run_history(case):
         if (np.isnan(outn) != nanmask).any():
             return violation("history_nan_pattern", "%s: NaN pattern differs from the reference" % where, labels)
         err = np.abs(np.where(nanmask, 0.0, outn - ref))
-        if err.max() > tol:
-            i = np.unravel_index(np.argmax(err), err.shape)
+        if (err > tol).any():
+            i = np.unravel_index(np.argmax(err - tol), err.shape)
             return violation("history_value", "%s on a re-used object: at xq=%r got %r, reference for the values y holds at this call %r "
-                             "(err %.2e, tol %.2e)" % (where, xq[i[-1]], outn[i], ref[i], err.max(), tol), labels)
+                             "(err %.2e, tol %.2e)" % (where, xq[i[-1]], outn[i], ref[i], err[i], float(np.max(tol))), labels)
         # a freshly constructed object with the same data (xitorch-vs-xitorch, in addition to the reference)
         fresh = xt_call(lambda: Interp1D(x_t.clone(), ycur.detach().clone(), **kw)(xq_t.detach().clone()), _where="fresh")
         fn = fresh.detach().numpy()
@@ -509,42 +695,41 @@ def run_history(case):
 
         # ---- derivatives, when this call records a graph
         want_y = bool(op["grad"]) and not op["nograd"] and not case["yinit"]
-        want_q = bool(op["qgrad"]) and not op["nograd"] and not has_out
-        if (want_y or want_q) and act.any():
+        want_q = bool(op["qgrad"]) and not op["nograd"]
+        sel = ~nanmask.reshape(-1, nq).any(0)            # outputs that enter the loss: all but the NaN-filled ones
+        if (want_y or want_q) and sel.any():
             if not out.requires_grad:
                 return violation("history_no_graph", "%s: the result does not require grad although %s does" % (
                     where, "y" if want_y else "xq"), labels)
-            nact = int(act.sum())
-            W = torch.randn((*batch, nact), generator=g, dtype=DT)
-            Wn = W.numpy()
+            W = torch.randn((*batch, int(sel.sum())), generator=g, dtype=DT)
+            Wn = np.zeros((*batch, nq))
+            Wn[..., sel] = W.numpy()
             wrt = ([ycall] if want_y else []) + ([xq_t] if want_q else [])
-            grads = xt_call(torch.autograd.grad, (out[..., torch.tensor(act)] * W).sum(), wrt, allow_unused=True, _where="history-backward")
+            grads = xt_call(torch.autograd.grad, (out[..., torch.tensor(sel)] * W).sum(), wrt, allow_unused=True, _where="history-backward")
             grads = list(grads)
             if want_y:
                 gy = grads.pop(0)
-                gyn = np.zeros((*batch, n)) if gy is None else gy.numpy()[..., inv]          # sorted order
-                # row j of Lmat = response of the interpolant to the j-th unit vector; with y[0]==y[-1] required, only
-                # directions inside that subspace are defined: interior unit vectors and e_0 + e_{n-1}
-                E = np.eye(n)
-                if tied:
-                    E[0, -1] = 1.0
-                    E = E[:-1]
-                    gyn = np.concatenate([gyn[..., :1] + gyn[..., -1:], gyn[..., 1:-1]], axis=-1)
-                Lmat = ref_interp(method, sbc, xs, E, pos[act])
+                Lmat, fold = ref_dy(method, sbc, eff_extrap, xs, pos, inside, tied)
+                gyn = fold(np.zeros((*batch, n)) if gy is None else gy.numpy()[..., inv])          # sorted order
                 gy_ref = np.einsum("...q,jq->...j", Wn, Lmat)
-                if np.abs(gyn - gy_ref).max() > 1e-9 * ratio ** 2 * (1 + np.abs(gy_ref).max()):
+                if np.abs(gyn - gy_ref).max() > 1e-9 * ratio ** 2 * rs * (np.abs(Wn).max() + np.abs(gy_ref).max()) * far:
                     return violation("history_grad_y", "%s: d/dy differs from the interpolation matrix of the reference (err %.2e)" % (
                         where, np.abs(gyn - gy_ref).max()), labels)
                 seen.add("checked=grad_y")
             if want_q:
                 gx = grads.pop(0)
-                d_ref = (ref_interp(method, sbc, xs, ys_now, xq, nu=1) * Wn).reshape(-1, nq).sum(0)
-                gxn = np.zeros_like(d_ref) if gx is None else gx.numpy()
-                mask = ~np.isin(xq, xs) if method == "linear" else np.ones(nq, dtype=bool)
-                if mask.any() and np.abs((gxn - d_ref)[mask]).max() > 1e-8 * ratio ** 3 * (1 + np.abs(d_ref).max()) / min(case["incs"]) / case["xscale"]:
-                    return violation("history_grad_xq", "%s: d/dxq differs from the interpolant's derivative (err %.2e)" % (
-                        where, np.abs((gxn - d_ref)[mask]).max()), labels)
-                seen.add("checked=grad_xq")
+                d_el, valid = ref_dxq(method, sbc, eff_extrap, xs, ys_now, xq, pos, inside)
+                d_ref = (d_el * Wn).reshape(-1, nq).sum(0)
+                gxn = np.zeros(nq) if gx is None else gx.numpy()
+                dtol = 1e-8 * ratio ** 3 * rs * far * (ymax * np.abs(Wn).sum(axis=tuple(range(len(batch)))).max() / hmin_of(case) + np.abs(d_ref).max())
+                bad = valid & (np.abs(gxn - d_ref) > dtol)
+                if bad.any():
+                    j = int(np.argmax(np.where(valid, np.abs(gxn - d_ref), 0.0)))
+                    return violation("history_grad_xq" if inside[j] else "history_grad_xq_outside",
+                                     "%s: d/dxq at xq=%r (inside=%s, image position %r) is %r, derivative of the %s is %r (tol %.2e)" % (
+                                         where, xq[j], bool(inside[j]), pos[j], gxn[j],
+                                         "interpolant" if inside[j] else "documented extension (%s)" % eff_extrap, d_ref[j], dtol), labels)
+                seen.add("checked=grad_xq" + ("_outside" if has_out else ""))
         del out
     return ok(labels + sorted(seen) + ["calls=%d" % ncalls], ncalls >= 2 and between)
 
@@ -558,7 +743,7 @@ def history_st(draw, tier="quick"):
     incs = [draw(st.sampled_from([1.0, 1.0, 1.0, 0.5, 2.0, 0.1, 3.0, 10.0])) for _ in range(n - 1)]
     extrap = draw(st.sampled_from(["default", "default", "default", "nan", "const", "callable", "bound", "mirror", "periodic"]))
     shuffle = draw(st.booleans())
-    qk = ["in", "in", "in", "knot", "lo", "hi", "out_lo", "out_hi"]
+    qk = ["in", "in", "in", "knot", "lo", "hi", "out_lo", "out_hi", "out_lo", "out_hi", "ulp_lo", "ulp_hi"]
     batches = [[], [], [2], [1], [2, 3]]
     nops = draw(st.integers(2, 4 if tier == "quick" else 7))
     ops = []
@@ -574,6 +759,8 @@ def history_st(draw, tier="quick"):
             "x0": draw(st.sampled_from([0.0, -5.0, 2.5])), "shuffle": shuffle,
             "assume_sorted": (not shuffle) and draw(st.booleans()), "yinit": draw(st.sampled_from([False, False, False, True])),
             "batch0": draw(st.sampled_from(batches)), "const": draw(st.sampled_from([1.75, 0.0, -2.0])), "ops": ops,
+            "unit": draw(st.sampled_from(UNITS)), "yunit": draw(st.sampled_from(YUNITS)),
+            "mspell": draw(st.sampled_from(SPELL)), "bcspell": draw(st.sampled_from(SPELL)), "exspell": draw(st.sampled_from(["omitted", "none"])),
             "seed": draw(st.integers(0, 2 ** 31 - 1))}
 
 
